@@ -46,7 +46,8 @@ fn cfg_two(thorough: bool) -> Cfg {
         tables: vec![("t".into(), false), ("v".into(), true)],
         schemas: vec![Schema::AllPresent, Schema::Dropped(0), Schema::Dropped(1), Schema::NotTabletBased],
         // here the never-known uuid is the ONLY replica: a tablet with an empty usable replica list
-        rsets: vec![vec![(LABEL_A, 0), (LABEL_B, 1)], vec![(LABEL_X, 0)], vec![(LABEL_C, 2), (LABEL_B, 0)]],
+        // and a set with TWO uuids that may be unknown, of which only C can ever become known (partial resolution)
+        rsets: vec![vec![(LABEL_A, 0), (LABEL_B, 1)], vec![(LABEL_X, 0)], vec![(LABEL_C, 2), (LABEL_B, 0)], vec![(LABEL_C, 1), (LABEL_X, 3)]],
         combos: thorough,
         move_b: true,
         audit_mod: 50,
